@@ -2245,6 +2245,7 @@ status_t Message :: TemplatedUnflatten(const Message & templateMsg, DataUnflatte
          if (ret.IsError())
          {
             LogTime(MUSCLE_LOG_DEBUG, "TemplatedUnflatten:  Error unflattening field [%s] [%s]\n", iter.GetKey()(), ret());
+            Clear();  // the field we failed on may have been left in its empty state, which the rest of the Message API doesn't tolerate
             return ret;
          }
       }
